@@ -42,7 +42,9 @@ def run_units(units, extra_prelude="", timeout_s=40, jobs=8):
         results = {}
         pending = list(units)
         py = sys.executable
-        env = dict(os.environ, PYTHONPATH=ROOT, JAX_PLATFORMS="cpu")
+        # VERIF_REPO=<checkout>: analyse that checkout of femtomc/genjax instead of the editable install (/repo)
+        pp = ROOT if not os.environ.get("VERIF_REPO") else os.path.join(os.environ["VERIF_REPO"], "src") + os.pathsep + ROOT
+        env = dict(os.environ, PYTHONPATH=pp, JAX_PLATFORMS="cpu")
         while pending or procs:
             while pending and len(procs) < jobs:
                 name, _ = pending.pop(0)
@@ -91,7 +93,9 @@ def replay_counterexample(module_path, detail):
     call = m.group(1)
     code = f"import runpy, sys\nns = runpy.run_path({module_path!r})\ntry:\n    r = eval({call!r}, ns)\nexcept Exception as e:\n    r = ('raised', type(e).__name__, str(e)[:200])\nprint('RESULT', repr(r))\n"
     p = subprocess.run([sys.executable, "-c", code], capture_output=True, text=True,
-                       env=dict(os.environ, PYTHONPATH=ROOT, JAX_PLATFORMS="cpu"), timeout=300)
+                       env=dict(os.environ, PYTHONPATH=(ROOT if not os.environ.get("VERIF_REPO") else
+                                                        os.path.join(os.environ["VERIF_REPO"], "src") + os.pathsep + ROOT),
+                                JAX_PLATFORMS="cpu"), timeout=300)
     m2 = re.search(r"RESULT (.*)", p.stdout)
     if not m2:
         return None, "replay produced no result: " + p.stderr[-300:]
